@@ -1037,6 +1037,214 @@ fn mode_c18cap(args: &std::collections::HashMap<String, String>) -> Value {
     json!({"evaluations": evaluations, "stuck_cases": stuck_cases, "new_client_cases": fresh_cases, "start_generation_cases": gen_cases, "max_accesses_per_call": max_accesses, "capped_calls": capped_calls, "violations": violations, "samples": samples})
 }
 
+// ------------------------------------------------------------------------------------------------
+// Engine `stallproc`: the daemon is a separate process (hooks on) that stalls for ever, alive, at
+// its k-th hook point of start-up or of an update; a client of this process then opens the segment
+// and reads. Locks and anything else owned per process only show between processes. The client
+// runs in a watched thread: the verdict on a call that has not come back is taken from what the
+// thread is doing (/proc/self/task/<tid>/stat and /syscall), not from the time it took: a thread
+// that sits in the same blocking system call, not runnable, while the only other party is
+// stalled, is waiting for the daemon.
+
+fn mode_stallchild(args: &std::collections::HashMap<String, String>) -> Value {
+    use std::cell::Cell;
+    use std::rc::Rc;
+    let path = PathBuf::from(arg_str(args, "path", ""));
+    let op_target = arg_u64(args, "op", 0) as usize;
+    let k_target = arg_u64(args, "k", 1);
+    let base = arg_u64(args, "base", 0);
+    let op = Rc::new(Cell::new(0usize));
+    let k = Rc::new(Cell::new(0u64));
+    {
+        let (op, k) = (op.clone(), k.clone());
+        set_handler(Some(Box::new(move |p: &Point| {
+            if p.site.ends_with(".post") {
+                return;
+            }
+            k.set(k.get() + 1);
+            if op.get() == op_target && k.get() == k_target {
+                let out = std::io::stdout();
+                let mut o = out.lock();
+                let _ = writeln!(o, "STALLED {}[{}]", p.site, p.word);
+                let _ = o.flush();
+                drop(o);
+                loop {
+                    unsafe { libc::pause() };
+                }
+            }
+        })));
+    }
+    let mut w: Option<ShmWriter> = None;
+    for (i, o) in [WOp::New, WOp::Publish, WOp::Publish].iter().enumerate() {
+        op.set(i);
+        k.set(0);
+        match o {
+            WOp::New => w = Some(ShmWriter::new(&path).expect("ShmWriter::new")),
+            WOp::Publish => w.as_mut().unwrap().write(&encode(base + i as u64)),
+        }
+    }
+    set_handler(None);
+    println!("DONE");
+    std::process::exit(0);
+}
+
+fn syscall_name(n: i64) -> &'static str {
+    match n {
+        0 => "read", 1 => "write", 2 => "open", 3 => "close", 7 => "poll", 9 => "mmap", 23 => "select", 35 => "nanosleep", 72 => "fcntl", 73 => "flock",
+        202 => "futex", 230 => "clock_nanosleep", 232 => "epoll_wait", 257 => "openat", 271 => "ppoll", 281 => "epoll_pwait", _ => "?",
+    }
+}
+
+fn mode_stallproc(args: &std::collections::HashMap<String, String>) -> Value {
+    use std::io::{BufRead, BufReader};
+    use std::process::{Command, Stdio};
+    use std::sync::atomic::{AtomicI64, Ordering};
+    use std::sync::mpsc;
+    use std::sync::Arc;
+    let replay_dir = arg_str(args, "replays", "/verif/replays");
+    let (shard, nshards) = shard_of(args);
+    let dir = workdir();
+    let me = std::env::current_exe().unwrap();
+    let mut violations: Vec<Value> = Vec::new();
+    let mut samples = Vec::new();
+    let mut cells: BTreeMap<String, u64> = BTreeMap::new();
+    let mut outcomes: BTreeMap<String, u64> = BTreeMap::new();
+    let mut evaluations = 0u64;
+    let mut inconclusive = 0u64;
+    for (si, start) in enum_starts().iter().enumerate() {
+        if matches!(start, Start::NoDir) {
+            continue;
+        }
+        let (_, p0, _) = start.progress();
+        for op in 0..3usize {
+            if ((si * 3 + op) as u64) % nshards != shard {
+                continue;
+            }
+            let mut k = 0u64;
+            loop {
+                k += 1;
+                if k > 200 {
+                    break;
+                }
+                let path = dir.join(format!("stall-{}", si));
+                start.prepare(&path);
+                let mut child = match Command::new(&me)
+                    .args(["stallchild", "--path", path.to_str().unwrap(), "--op", &op.to_string(), "--k", &k.to_string(), "--base", &(p0 + 1).to_string()])
+                    .stdin(Stdio::null())
+                    .stdout(Stdio::piped())
+                    .stderr(Stdio::null())
+                    .spawn()
+                {
+                    Ok(c) => c,
+                    Err(_) => {
+                        inconclusive += 1;
+                        continue;
+                    }
+                };
+                let mut line = String::new();
+                let _ = BufReader::new(child.stdout.take().unwrap()).read_line(&mut line);
+                if !line.starts_with("STALLED") {
+                    // the op has fewer than k points (or the child failed): next op
+                    let _ = child.kill();
+                    let _ = child.wait();
+                    if line.starts_with("DONE") {
+                        break;
+                    }
+                    inconclusive += 1;
+                    break;
+                }
+                let site = line.trim()[8..].to_string();
+                // The client, in a watched thread.
+                let tid = Arc::new(AtomicI64::new(0));
+                let (tx, rx) = mpsc::channel::<String>();
+                let cpath = CString::new(path.to_str().unwrap()).unwrap();
+                let t2 = tid.clone();
+                let h = std::thread::spawn(move || {
+                    t2.store(unsafe { libc::syscall(libc::SYS_gettid) } as i64, Ordering::SeqCst);
+                    let r = match ShmReader::new(&cpath) {
+                        Ok(mut r) => {
+                            let mut last = String::new();
+                            for _ in 0..3 {
+                                last = match r.msnapshot() {
+                                    Ok(c) => format!("{:?}", decode(c)),
+                                    Err(e) => format!("Err({:?})", e),
+                                };
+                            }
+                            format!("opened, snapshot {}", last)
+                        }
+                        Err(e) => format!("open failed: {:?}", e),
+                    };
+                    let _ = tx.send(r);
+                });
+                let mut result: Option<String> = rx.recv_timeout(std::time::Duration::from_millis(200)).ok();
+                let mut blocked: Option<String> = None;
+                if result.is_none() {
+                    // Not back yet: what is the thread doing?
+                    let t = tid.load(Ordering::SeqCst);
+                    let mut same = 0;
+                    let mut last_sys = String::new();
+                    for _ in 0..600 {
+                        if let Ok(r) = rx.recv_timeout(std::time::Duration::from_millis(50)) {
+                            result = Some(r);
+                            break;
+                        }
+                        let stat = std::fs::read_to_string(format!("/proc/self/task/{}/stat", t)).unwrap_or_default();
+                        let state = stat.rsplit(')').next().and_then(|r| r.split_whitespace().next()).unwrap_or("?").to_string();
+                        let sys = std::fs::read_to_string(format!("/proc/self/task/{}/syscall", t)).unwrap_or_default();
+                        let nr = sys.split_whitespace().next().unwrap_or("?").to_string();
+                        if (state == "S" || state == "D") && nr != "running" && nr != "?" && nr != "-1" {
+                            if nr == last_sys {
+                                same += 1;
+                            } else {
+                                same = 1;
+                                last_sys = nr.clone();
+                            }
+                        } else {
+                            same = 0;
+                        }
+                        if same >= 40 {
+                            let n: i64 = nr.parse().unwrap_or(-1);
+                            blocked = Some(format!("system call {} ({}), thread state {}, for 40 consecutive samples over 2 s", n, syscall_name(n), state));
+                            break;
+                        }
+                    }
+                }
+                // Let the daemon go (dead now): whatever the client waited for is released.
+                let _ = child.kill();
+                let _ = child.wait();
+                let finished = if result.is_none() { rx.recv_timeout(std::time::Duration::from_secs(20)).ok() } else { result.clone() };
+                if finished.is_some() {
+                    let _ = h.join();
+                }
+                evaluations += 1;
+                *cells.entry(format!("{:02}:{}|op{}|{}", si, start.name(), op, site)).or_insert(0) += 1;
+                if let Some(b) = blocked {
+                    *outcomes.entry("blocked-on-stalled-daemon".into()).or_insert(0) += 1;
+                    if violations.len() < 10 {
+                        let rp = format!("{}/C18-stallproc-{}-{}-{}.json", replay_dir, si, op, k);
+                        vworld::write_json(&rp, &json!({"property":"C18","engine":"stallproc","start":start.to_json(),"op":op,"k":k,"site":site,"blocked":b}));
+                        violations.push(json!({"sig":"client-blocked-on-stalled-daemon","detail":format!("daemon process alive but stalled at {} of op {} (start state {}): the client's open/snapshot did not come back, its thread sat in {}; it came back only once the daemon process was killed ({})", site, op, start.name(), b, finished.clone().unwrap_or_else(|| "not even then".into())),"replay":rp}));
+                    }
+                } else if let Some(r) = result {
+                    let key = if r.starts_with("open failed") { "open-error" } else if r.contains("Err(") { "snapshot-error" } else { "answered" };
+                    *outcomes.entry(key.into()).or_insert(0) += 1;
+                    if samples.len() < 4 && evaluations % 37 == 1 {
+                        samples.push(json!({"start": start.name(), "op": op, "stalled_at": site, "client": r}));
+                    }
+                } else {
+                    // still running (never seen blocked): cannot tell on this machine
+                    inconclusive += 1;
+                }
+            }
+        }
+    }
+    for msg in shmsim::metered::drain_unbounded() {
+        violations.push(json!({"sig": "unbounded-work-in-one-call", "detail": msg, "replay": ""}));
+    }
+    let _ = std::fs::remove_dir_all(&dir);
+    json!({"evaluations": evaluations, "cells": cells, "outcomes": outcomes, "inconclusive_cases": inconclusive, "violations": violations, "samples": samples})
+}
+
 fn mode_replay(args: &std::collections::HashMap<String, String>) -> Value {
     let file = arg_str(args, "file", "");
     let v: Value = vworld::serde_json::from_str(&std::fs::read_to_string(&file).expect("replay file")).expect("json");
@@ -1069,6 +1277,8 @@ fn main() {
         "c11sweep" => mode_c11sweep(&args),
         "c03long" => mode_c03long(&args),
         "c18cap" => mode_c18cap(&args),
+        "stallproc" => mode_stallproc(&args),
+        "stallchild" => mode_stallchild(&args),
         "replay" => mode_replay(&args),
         m => panic!("unknown mode {:?}", m),
     };
